@@ -21,9 +21,11 @@ def dkey(op, c):
     return t[0] + "|" + (t[1][:400] if len(t) > 1 else "") + "|" + (t[2][:80] if len(t) > 2 else "") + "|" + c[:80]
 
 
+ASAN = "detect_leaks=1:abort_on_error=0:max_allocation_size_mb=96:allocator_may_return_null=1"
+# stream `old`: the parser cases (unchanged sizes and, seed for seed, unchanged content)
 ENGINE = DiffEngine("linuxparse", include_c=("topology-linux",), stateful=False, classify=classify, distinct_key=dkey,
                     sizes={"quick": (16, 1500), "thorough": (64, 12000)},
-                    env={"ASAN_OPTIONS": "detect_leaks=1:abort_on_error=0:max_allocation_size_mb=96:allocator_may_return_null=1"},
+                    env={"ASAN_OPTIONS": ASAN, "VERIF_LP_STREAM": "old"},
                     rule="per case one file content (well-formed kernel cpulists / cpumasks of many widths incl. files larger than a page, "
                          "boundary indexes, 45 weird numbers (wrap-around, sign, hex/octal, saturation), token mutants, raw bytes with NULs, "
                          "empty files, missing files) parsed by the real static function into differently pre-filled destinations, or one "
@@ -31,5 +33,39 @@ ENGINE = DiffEngine("linuxparse", include_c=("topology-linux",), stateful=False,
                          "code and resulting set / final size and byte count; distinct = distinct (op, content, C answer)")
 
 
+def classify_fs(op, c, m):
+    # `fsdep`: an input containing `..` (path resolution below the fsroot is modelled for plain trees only): not compared
+    if m == "fsdep" and not c.startswith("crash"):
+        return "benign"
+    return classify(op, c, m)
+
+
+def dkey_fs(op, c):
+    return op[:600] + "|" + c[:80]
+
+
+# stream `fs` (A9): the numeric / meminfo / hugepages readers and the cgroup handling on files under a scratch fsroot
+ENGINE_FS = DiffEngine("linuxparse", include_c=("topology-linux",), stateful=False, classify=classify_fs, distinct_key=dkey_fs,
+                       sizes={"quick": (16, 700), "thorough": (64, 3000)},
+                       env={"ASAN_OPTIONS": ASAN, "VERIF_LP_STREAM": "fs"},
+                       rule="per case a set of files written under a scratch fsroot (numbers around 2^31/2^32/2^63/2^64 and the 11/22-byte "
+                            "buffers, meminfo texts with the key around byte 4095, hugepages directories, /proc/self/cpuset and cgroup files with "
+                            "lines around 256 bytes, /proc/mounts with cgroup/cgroup2/cpuset lines, escapes, comments, lines beyond 4 pages, "
+                            "cgroup.controllers and cpuset files incl. names cut at 255 bytes, NUL bytes, token mutants) and one call of the real "
+                            "hwloc_read_path_as_int/uint/uint64, hwloc_parse_meminfo_info, hwloc_parse_hugepages_info, "
+                            "hwloc_read_linux_cgroup_name, hwloc_find_linux_cgroup_mntpnt, hwloc_admin_disable_set_from_cgroup or "
+                            "hwloc_linux__get_allowed_resources; compared exactly with the Lean model (hugepages list as a sorted multiset)")
+
+
 def run_engine(tier, seed):
-    return ENGINE.run_engine(tier, seed)
+    a = ENGINE.run_engine(tier, seed)
+    b = ENGINE_FS.run_engine(tier, seed)
+    dist = dict(a.get("distribution") or {})
+    for k, v in (b.get("distribution") or {}).items():
+        dist[k] = dist.get(k, 0) + v
+    dist = {k: v for k, v in dist.items() if v}
+    return {"evaluations": a["evaluations"] + b["evaluations"], "distinct_nontrivial": a["distinct_nontrivial"] + b["distinct_nontrivial"],
+            "benign_repr_diffs": a["benign_repr_diffs"] + b["benign_repr_diffs"], "distribution": dist, "buckets_hit": len(dist),
+            "corpus_cases": a["corpus_cases"], "problems": a["problems"] + b["problems"],
+            "samples": (a.get("samples") or [])[:4] + (b.get("samples") or [])[:4], "rule": a["rule"] + " || fsroot: " + b["rule"],
+            "fs_stream": {k: b.get(k) for k in ("evaluations", "distinct_nontrivial", "benign_repr_diffs")}}
